@@ -85,6 +85,7 @@ def check(ck):
     r04_1(ck, rf)
     r04_2(ck)
     r04_3(ck, rf)
+    r04_4(ck)
 
 
 def r04_1(ck, rf):
@@ -244,3 +245,26 @@ def r04_3(ck, rf):
     ck.require(not store_write_sites(gv.node), 'R04.3', gv, gv.node.name,
                'Store.get_value writes nothing', 'Store.get_value writes '
                'store state')
+
+
+def r04_4(ck):
+    ck.rule('R04.4', 'what the processes of one pass were shown and what '
+            'they returned stays as it was until it is applied: built-in '
+            'updaters do not modify the current value in place (an update '
+            'may alias a viewed value), colliding port updates stay '
+            'separate, and steps created or moved by structural updates '
+            'keep their layer (shared with C08 R08.8, C06 R06.2, C05 R05.6)')
+    from . import c05, c06, c08
+    c08.r08_8(ck, rule='R04.4')
+    c06.r06_2(ck)
+    c05.r05_6(ck)
+    OLD, NEW = ('R06.2', 'R05.6'), 'R04.4'
+
+    for o in ck.obligations:
+        if o['rule'] in OLD:
+            o['rule'] = NEW
+    for v in ck.violations:
+        if v.rule in OLD:
+            v.rule = NEW
+    for r in OLD:
+        ck.rules.pop(r, None)
